@@ -28,4 +28,152 @@ theorem rollback_loses_tables_witness : ¬ RollbackExact := by
   revert h'
   decide
 
+/-- the table witness on the concrete run: scan answered rows at the checkpoint, a storage error after -/
+example :
+    let d0 := run {} [.rcreate 0, .rins 0 1 2]
+    let d3 := run d0 [.ckpt 100 [], .rollback 0]
+    qScan d0 0 = .ok [(1, 1, 2)] ∧ qScan d3 0 = .error .storage ∧ tables d3 = [0] := by decide
+
+/-- graph: create a node, checkpoint, delete it, roll back ⇒ `all_nodes` shows it again but the
+    engine's in-memory label index (not reset by the rollback) no longer finds it -/
+theorem rollback_stale_label_index_witness :
+    let d0 := run {} [.gnode 1]
+    let d3 := run d0 [.ckpt 100 [], .gdeln 1, .rollback 0]
+    qNodes d3 = qNodes d0 ∧ qByLabel d0 1 = [1] ∧ qByLabel d3 1 = [] := by decide
+
+/-- vector: the HNSW cache built after the checkpoint survives the rollback and answers with a key
+    that no longer exists -/
+theorem rollback_stale_hnsw_witness :
+    let d0 := run {} [.vput 0 [1, 0, 0]]
+    let d3 := run d0 [.ckpt 100 [], .vput 1 [0, 1, 0], .vbuild, .rollback 0]
+    qEmbs d3 = qEmbs d0 ∧ qSearch d0 [1, 1, 1] = [0] ∧ qSearch d3 [1, 1, 1] = [0, 1] := by decide
+
+/-- the checkpoint records live in the store that is wiped: rolling back to c0 removes c0 itself and
+    the newer c1, so neither can be rolled back to afterwards (no repeated cycles) -/
+theorem rollback_wipes_checkpoint_records_witness :
+    let d := run {} [.kput 0 0 1 none, .ckpt 100 [], .kput 0 0 2 none, .ckpt 101 []]
+    let d' := (step d (.rollback 0)).1
+    qCkpts d = [0, 1] ∧ (step d (.rollback 0)).2 = .ok ∧ qCkpts d' = [] ∧
+      (step d' (.rollback 0)).2 = .err .notFound ∧ (step d' (.rollback 1)).2 = .err .notFound := by
+  decide
+
+/-- after the rollback a listed table rejects inserts (schema key restored, slab table gone) -/
+theorem writes_fail_after_rollback_witness :
+    let d3 := run {} [.rcreate 0, .rins 0 1 2, .ckpt 100 [], .rollback 0]
+    tables d3 = [0] ∧ (step d3 (.rins 0 5 5)).2 = .err .storage := by decide
+
+/-- What holds, for EVERY statement sequence before the checkpoint that does not write an
+    `_embedding` field (`Op.noSlab`; may contain checkpoints, rollbacks, retention) and EVERY sequence
+    after it (unrestricted): if the rollback is accepted, the key-addressed slabs are exactly the
+    checkpointed ones, so everything read through `scan`/`get` — graph nodes / edges / neighbours,
+    embeddings, plain / cache / emb keys, table names — is exactly as at the checkpoint.
+    Missing w.r.t. `RollbackExact`: the relational slab (`rel = []`: all rows gone), engine-side
+    indexes and caches (witnesses above), the checkpoint records themselves, and stores holding
+    `_embedding` values (embedding slab / entity index; covered by the `store_raw` correspondence only). -/
+theorem rollback_exact_partial (pre post : List Op) (ts : Nat) (ord : List Nat) (d3 : Db)
+    (hpre : ∀ op ∈ pre, op.noSlab = true) :
+    let d0 := run {} pre
+    let d2 := run (step d0 (.ckpt ts ord)).1 post
+    step d2 (.rollback d0.nextCk) = (d3, .ok) →
+      d3.st.md = d0.st.md ∧ d3.st.cache = d0.st.cache ∧ d3.st.rel = [] ∧ kvObs d3 = kvObs d0 ∧
+        d3.st.cps = d0.st.cps ∧ WF0 d3.st := by
+  intro d0 d2 hstep
+  have hinv : DbInv d0 := DbInv.init.run pre hpre
+  simp only [step, doRollback] at hstep
+  cases hl : loadCk d2 d0.nextCk with
+  | none =>
+    rw [hl] at hstep
+    exact absurd (congrArg Prod.snd hstep) (by simp)
+  | some c =>
+    rw [hl] at hstep
+    have himg : c.img = d0.st := load_after d0 hinv ts ord post c hl
+    have hd3 : d3 = { d2 with st := Store.restoreFrom c.img d2.st } :=
+      (congrArg Prod.fst hstep).symm
+    have hf := restoreFrom_fields (img := c.img) (by rw [himg]; exact hinv.wf) d2.st
+    have hw := restoreFrom_wf (img := c.img) (by rw [himg]; exact hinv.wf) d2.st
+    have hst : d3.st = Store.restoreFrom c.img d2.st := by rw [hd3]
+    rw [himg] at hf hw hst
+    have hv := WF0.view_eq (hst ▸ hw) hinv.wf (by rw [hst]; exact hf.1) (by rw [hst]; exact hf.2.1)
+    refine ⟨by rw [hst]; exact hf.1, by rw [hst]; exact hf.2.1, by rw [hst]; exact hf.2.2.1, ?_⟩
+    exact ⟨kvObs_congr d3 d0 (by rw [hst]; exact hf.1) hv.1 hv.2.1 hv.2.2,
+      by rw [hst]; exact hf.2.2.2, hst ▸ hw⟩
+
+/-- non-vacuity: a mixed sequence (tables, graph, vectors, raw keys, an earlier checkpoint/rollback
+    cycle) satisfies the hypothesis, the rollback is accepted, and the image is non-trivial -/
+example :
+    let pre : List Op := [.rcreate 0, .rins 0 1 2, .gnode 1, .gnode 2, .gedge 1 2, .vput 0 [1, 2, 3],
+      .kput 0 1 5 none, .kput 1 1 6 none, .ckpt 50 [], .gdeln 2, .rollback 0, .gnode 0]
+    let post : List Op := [.gdeln 1, .vdel 0, .kput 2 7 1 (some 3), .ckpt 70 [], .rdrop 0]
+    let d0 := run {} pre
+    (∀ op ∈ pre, op.noSlab = true) ∧
+    (step (run (step d0 (.ckpt 60 [])).1 post) (.rollback d0.nextCk)).2 = .ok ∧
+    (kvObs d0).nodes = [(1, 1), (2, 2), (3, 0)] ∧ (kvObs d0).embs = [(0, [1, 2, 3])] := by decide
+
+/-- `usable_after_rollback`, the part that holds: when the checkpointed database held no table rows,
+    the store after the rollback has the checkpointed metadata slab, cache, (empty) relational slab
+    and checkpoint records, and satisfies the store invariant again — so `rollback_exact_partial`
+    applies to every further checkpoint / rollback cycle started from it.  It differs from the
+    checkpointed store only in entity ids (`eidx`/`enext`), which no statement answers with.
+    Missing: a proof that every further statement ANSWERS the same (a simulation up to entity ids),
+    the engine-side state (id counters keep their post-checkpoint values — harmless, ids stay
+    unique; label index / HNSW cache stale — witnesses above), and databases with tables
+    (`writes_fail_after_rollback_witness`). -/
+theorem usable_after_rollback_partial (pre post : List Op) (ts : Nat) (ord : List Nat) (d3 : Db)
+    (hpre : ∀ op ∈ pre, op.noSlab = true) :
+    let d0 := run {} pre
+    let d2 := run (step d0 (.ckpt ts ord)).1 post
+    step d2 (.rollback d0.nextCk) = (d3, .ok) → d0.st.rel = [] →
+      d3.st.md = d0.st.md ∧ d3.st.cache = d0.st.cache ∧ d3.st.rel = d0.st.rel ∧
+      d3.st.cps = d0.st.cps ∧ WF0 d3.st := by
+  intro d0 d2 hstep hrel
+  have h := rollback_exact_partial pre post ts ord d3 hpre hstep
+  exact ⟨h.1, h.2.1, by rw [h.2.2.1, hrel], h.2.2.2.2.1, h.2.2.2.2.2⟩
+
+example :
+    let pre : List Op := [.gnode 1, .vput 0 [1, 2, 3], .kput 1 1 6 none]
+    let d0 := run {} pre
+    (∀ op ∈ pre, op.noSlab = true) ∧ d0.st.rel = [] ∧
+    (step (run (step d0 (.ckpt 60 [])).1 [.gdeln 1]) (.rollback d0.nextCk)).2 = .ok := by decide
+
+/-- retention, for EVERY listing `L` (any order among equal timestamps) and EVERY count: what
+    `enforce` keeps (`take max` of the stable newest-first sort) has `min max |L|` elements, together
+    with what it deletes it is exactly `L`, and nothing deleted is newer than anything kept -/
+theorem retention_keeps_newest (max : Nat) (L : List (Nat × Nat)) :
+    ((sortDesc L).take max).length = min max L.length ∧
+    ((sortDesc L).take max ++ (sortDesc L).drop max).Perm L ∧
+    ∀ k ∈ (sortDesc L).take max, ∀ x ∈ (sortDesc L).drop max, x.2 ≤ k.2 := by
+  refine ⟨?_, ?_, ?_⟩
+  · rw [List.length_take, (sortDesc_perm L).length_eq]
+  · rw [List.take_append_drop]; exact sortDesc_perm L
+  · have h := sortDesc_sorted L
+    unfold DescSorted at h
+    rw [← List.take_append_drop max (sortDesc L), List.pairwise_append] at h
+    exact fun k hk x hx => h.2.2 k hk x hx
+
+/-- with tied timestamps the listing order decides: a by_tag order listing the older c0 first makes
+    retention delete the checkpoint that was just created -/
+theorem retention_tie_drops_newest_witness :
+    enforce 1 [0, 1] [(0, 5), (1, 5)] = [(0, 5)] ∧ enforce 1 [1, 0] [(0, 5), (1, 5)] = [(1, 5)] := by
+  decide
+
+example : retainIds 2 [] [(0, 5), (1, 7), (2, 6), (3, 7)] = [1, 3] := by decide
+
+/-- every checkpoint id that is listed after ANY statement sequence (with retention at any count and
+    any tie order, rollbacks, …) can be loaded: its blob is in the archive -/
+theorem retained_are_restorable (ops : List Op) (i : Nat) :
+    alHas (run {} ops).st.cps i = true → i < (run {} ops).nextCk →
+    (∀ op ∈ ops, op.noSlab = true) →
+    ∃ c, loadCk (run {} ops) i = some c ∧ c.id = i := by
+  intro hl hlt hops
+  have hinv : DbInv (run {} ops) := DbInv.init.run ops hops
+  unfold loadCk
+  rw [if_pos hl]
+  have hm : i ∈ (run {} ops).arch.map (·.id) := by rw [hinv.ids]; exact List.mem_range.mpr hlt
+  obtain ⟨c, hc, hci⟩ := List.mem_map.mp hm
+  cases hf : (run {} ops).arch.find? (fun x => decide (x.id = i)) with
+  | none =>
+    rw [List.find?_eq_none] at hf
+    exact absurd (by simpa using hci) (hf c hc)
+  | some c' => exact ⟨c', rfl, by simpa using List.find?_some hf⟩
+
 end Neumann.Ckpt.Props
